@@ -627,6 +627,18 @@ def replay(ctx, rec):
             print("first :", a[1])
             print("second:", b[1])
             return a[1] == b[1]
+        if "hang" in case:
+            # re-run the whole program (TLC regenerates its histories) under the watchdog
+            prog = dict(prog, id=1)
+            leaves, _, _, _ = generate(ctx, [prog], ctx.tier)
+            hs = [h for h, _ in leaves.get(1, [])]
+            a = _worker_A((prog, hs, ctx.seed, 50))
+            print("binding A: %s" % (a["hang"] or "all %d histories answered" % len(hs)))
+            b = {"hang": None}
+            if case["mode"] == "B" and hs:
+                b = _worker_B((prog, b_scripts(leaves[1], 6, random.Random(ctx.seed)), ctx.seed))
+                print("binding B: %s" % (b["hang"] or "all conversations answered"))
+            return not (a["hang"] or b["hang"])
         print(json.dumps({k: v for k, v in case.items() if k != "prog"}, indent=1, default=str))
         return False
     if case["mode"] == "A":
